@@ -251,7 +251,7 @@ func (c C06Gen) Text() string {
 	return b.String()
 }
 
-var c06Parts = []string{"@{bin}/", "@{lib}/", "@{lib}/@{multiarch}/", "/opt/", "/usr/share/", "@{bin}/foo", "bar", "{a,b}", "{,x/}y", "foo-@{version}", "@{arch}", "/", "qt@{int}", "*", "@{user_share_dirs}/", "@{HOME}/.local/", "[0-9]", "@{sbin}/", "ding@rastersoft.com/", "g++", "a=b"}
+var c06Parts = []string{"@{bin}/", "@{lib}/", "@{lib}/@{multiarch}/", "/opt/", "/usr/share/", "@{bin}/foo", "bar", "{a,b}", "{,x/}y", "foo-@{version}", "@{arch}", "/", "qt@{int}", "*", "@{user_share_dirs}/", "@{HOME}/.local/", "[0-9]", "@{sbin}/", "ding@rastersoft.com/", "g++", "a=b", "{,/sub}", "x$name", "$1"}
 
 func genC06Value(t *rapid.T, local []string) string {
 	n := rapid.IntRange(1, 4).Draw(t, "nparts")
@@ -289,6 +289,10 @@ func genC06Case(t *rapid.T) C06Gen {
 			vals = append(vals, genC06Value(t, nil))
 		}
 		c.Lines = append(c.Lines, C13Line{Kind: "var", Name: name, Define: true, Values: vals})
+		if chance(t, "localappend", 3) {
+			// a helper variable that is appended to: what references it sees all its values
+			c.Lines = append(c.Lines, C13Line{Kind: "var", Name: name, Values: []string{genC06Value(t, nil)}})
+		}
 		local = append(local, name)
 	}
 	k := rapid.IntRange(1, 3).Draw(t, "nvals")
